@@ -252,7 +252,14 @@ function runOnce(script, job, run) {
 }
 
 function runJob(job) {
-  const script = loadScript(job.script);
+  let script;
+  try { script = loadScript(job.script); }
+  catch (e) {
+    // JavaScript that does not even parse is a fact about the compiled program, not about this simulator
+    if (!(e instanceof SyntaxError)) throw e;
+    const first = String(e.stack || e).split('\n').slice(0, 2).map(l => l.trim()).join(' ');
+    return { id: job.id, results: job.runs.map(() => ({ end: 'loaderror:SyntaxError: ' + e.message + ' (' + first + ')', out: [], turns: 0, simMs: 0, fired: {}, tapeLen: 0, tape: [] })) };
+  }
   const results = [];
   for (const run of job.runs) {
     try { results.push(runOnce(script, job, run)); }
